@@ -7,6 +7,7 @@
 //!         instructions, 2 = another group; mto / mfrom : key id (0 default, k = key of slot k-1, else foreign)
 //!   ops : 1 a signer                      marginfi_account_close
 //!         2 old new signer new_auth fw    transfer_to_new_account (fw: 20 = the real global fee wallet, else wallet id)
+//!         6 old new signer new_auth fw    transfer_to_new_account_pda (same arguments; the new account is a PDA)
 //!         3 a flags                       poke account_flags (scaffolding)
 //!         4 t                             clock
 //!         5 p                             protocol paused (group.panic_state_cache)
@@ -221,6 +222,62 @@ pub fn run(line: &str) -> String {
                 let fwk = if fw == 20 { h.fee_wallet } else { h.wallet(fw) };
                 let ix = ixs::transfer_to_new_account(h.group, h.accts[old], h.accts[new], s, h.fee_payer, na_, fwk);
                 h.w.exec(ix, &[s, h.fee_payer, h.accts[new]])
+            }
+            6 => {
+                // transfer_to_new_account_pda: the new account lives at the PDA of (group, new authority, account index =
+                // slot number); after a successful instruction the account is moved to the slot's fixed key (and the
+                // source's migrated_to re-pointed) so that dumps and the model stay slot-based. An occupied slot is
+                // exercised through the keypair variant (a PDA cannot collide with it).
+                let old = t.usize();
+                let new = t.usize();
+                let s = h.wallet(t.u64());
+                let na_ = h.wallet(t.u64());
+                let fw = t.u64();
+                let fwk = if fw == 20 { h.fee_wallet } else { h.wallet(fw) };
+                if h.w.account(&h.accts[new]).is_some() {
+                    let ix = ixs::transfer_to_new_account(h.group, h.accts[old], h.accts[new], s, h.fee_payer, na_, fwk);
+                    h.w.exec(ix, &[s, h.fee_payer, h.accts[new]])
+                } else {
+                    let idx = new as u16;
+                    let (pda, _) = Pubkey::find_program_address(
+                        &[
+                            marginfi_type_crate::constants::MARGINFI_ACCOUNT_SEED.as_bytes(),
+                            h.group.as_ref(),
+                            na_.as_ref(),
+                            &idx.to_le_bytes(),
+                            &0u16.to_le_bytes(),
+                        ],
+                        &marginfi::ID,
+                    );
+                    let ix = ixs::build(
+                        marginfi::accounts::TransferToNewAccountPda {
+                            group: h.group,
+                            old_marginfi_account: h.accts[old],
+                            new_marginfi_account: pda,
+                            authority: s,
+                            fee_payer: h.fee_payer,
+                            new_authority: na_,
+                            global_fee_wallet: fwk,
+                            instructions_sysvar: solana_program::sysvar::instructions::ID,
+                            system_program: solana_program::system_program::ID,
+                        },
+                        marginfi::instruction::TransferToNewAccountPda { account_index: idx, third_party_id: None },
+                        vec![],
+                    );
+                    let r = h.w.exec(ix, &[s, h.fee_payer]);
+                    if r.is_ok() {
+                        if let Some(a) = h.w.accounts.remove(&pda) {
+                            h.w.accounts.insert(h.accts[new], a);
+                        }
+                        let slot_key = h.accts[new];
+                        h.w.update::<MarginfiAccount>(&h.accts[old], |x| {
+                            if x.migrated_to == pda {
+                                x.migrated_to = slot_key;
+                            }
+                        });
+                    }
+                    r
+                }
             }
             3 => {
                 let a = t.usize();
